@@ -74,7 +74,7 @@ def holdsT (cfg : TCfg) (reasons : List Nat) (o : TObs) : Bool :=
   o.disposed == 1 && o.state == 3 && o.reg == 0 && o.leak == 0
 
 /-! ### Traffic report: after every round the mapping's totals equal what the bridge
-recorded as reported, never more than the bytes counted, and all of them once a report ran. -/
+recorded as reported, never more than the bytes counted, and all of them once a report ran whose storage calls succeeded. -/
 
 structure RObs where
   statS : Nat
@@ -92,7 +92,7 @@ def holdsR : Nat → Nat → List Round → List RObs → Bool
   | totS, totR, r :: rs, o :: os =>
     o.statS == o.lastS && o.statR == o.lastR &&
     decide (o.lastS ≤ totS + r.addS) && decide (o.lastR ≤ totR + r.addR) &&
-    (r.n == 0 || (o.lastS == totS + r.addS && o.lastR == totR + r.addR)) &&
+    (!(List.range r.n).any r.clean || (o.lastS == totS + r.addS && o.lastR == totR + r.addR)) &&
     holdsR (totS + r.addS) (totR + r.addR) rs os
   | _, _, _, _ => false
 
@@ -238,5 +238,23 @@ def pObs (c : Cfg PShared PLocal) : PObs := ⟨c.sh.repS, c.sh.repR, c.sh.pendS,
 def holdsP (a b : Nat) (fails : List Bool) (o : PObs) : Bool :=
   o.repS + o.pendS == a && o.repR + o.pendR == b && decide (0 ≤ o.pendS) && decide (0 ≤ o.pendR) &&
   (fails.isEmpty || fails.any id || (o.pendS == 0 && o.pendR == 0)) && o.leak == 0
+
+/-! ### Two bridges, one mapping: the record's totals are the sum of the deltas. -/
+
+def holdsX (ds : List Nat) (stat : Nat) : Bool := stat == ds.sum
+
+/-! ### ResourceManager: after the last DisposeAll every registered resource was disposed exactly
+once and nothing is left registered. -/
+
+structure RmObs where
+  registered : Nat
+  disposed : Nat
+  pending : Nat
+  twice : Nat             -- resources whose Dispose ran more than once
+  deriving DecidableEq, Repr
+
+def rmObs (sh : MShared) : RmObs := ⟨sh.registered, sh.disposed, sh.pending, 0⟩
+
+def holdsM2 (o : RmObs) : Bool := o.disposed == o.registered && o.pending == 0 && o.twice == 0
 
 end Tunnox.C16
